@@ -48,6 +48,22 @@ def handle (op : String) (args : List String) (impl : String) : Option Verdict :
       | some bs => wraps || decide (P14 cap pend bs)
       | none => false
     return ⟨showBs m, ok, tag⟩
+  | "submit", [cap, tg, ps] => some <| Id.run do
+    let some cap := cap.toNat? | return bad
+    let some tg := tg.toNat? | return bad
+    let some psx := (items ps ";").mapM parseP | return bad
+    match batchesOpt cap tg psx with
+    | none => return ⟨"err", impl == "err", "submit:lookup-error"⟩
+    | some bs =>
+      let pend := pending tg (psx.map (·.1))
+      let sent := bs.filter (·.members ≠ [])
+      -- property on the impl output: every submitted transaction carries exactly its members' allowances,
+      -- and together they are the pending proposals in order
+      let ok := match parseBs pend impl with
+        | some ibs => decide (M ≤ sumGas pend) ||
+            (decide ((ibs.map (·.members)).flatten = pend) && ibs.all (fun b => b.gas == sumGas b.members && b.members ≠ []))
+        | none => false
+      return ⟨showBs sent, ok, s!"submit:tx={min sent.length 3}:overcap={sent.any (fun b => decide (cap < b.gas))}"⟩
   | "exec", [cap, tg, msgId, ps] => some <| Id.run do
     let some cap := cap.toNat? | return bad
     let some tg := tg.toNat? | return bad
